@@ -356,6 +356,9 @@ def project(events, run_index=0):
             cur_step = {"kind": "search", "begin": e, "evals": [], "improves": [], "dirs_ev": None}
             ev("SearchBegin", sc=_i(e["sc"]), ss=e["ss"], k=e["k"], ks=e["ks"], fc=e["fc"],
                incuid=uid_of(e["ubest"]), incyR=RY(e["yval"]))
+        elif t == "Predict1":
+            if cur_step is not None:
+                cur_step.setdefault("predicts", []).append(e)
         elif t == "Improve":
             if cur_step is not None and e["site"] in ("search", "poll"):
                 cur_step["improves"].append(e)
@@ -381,7 +384,8 @@ def project(events, run_index=0):
                nev=nev, imppos=imp_pos if nev else False, impsuff=imp_suff if nev else False,
                fnewobs=bool(fnew_obs), incuid=uid_of(e["ubest"]), incyR=RY(e["yval"]),
                evuid=st["evals"][-1][1]["uid"] if nev else -1,
-               evyR=st["evals"][-1][1]["yR"] if nev else -1)
+               evyR=st["evals"][-1][1]["yR"] if nev else -1,
+               sf2=_sf2(e.get("search_factor", 1.0)), sf2b=_sf2(st["begin"].get("search_factor", 1.0)))
         elif t == "PollBegin":
             cur_step = {"kind": "poll", "begin": e, "evals": [], "improves": [], "dirs_ev": None}
             ev("PollBegin", k=e["k"], ks=e["ks"], fc=e["fc"], iter=e["iter"],
@@ -432,10 +436,24 @@ def project(events, run_index=0):
                 # first maximal (the code keeps the first strictly better one)
                 best_uid = evs[jbest][1]["uid"] if len(paired) == len(evs) else -1
                 best_yR = evs[jbest][1]["yR"] if len(paired) == len(evs) else -1
-            ev("PollEnd", kb=st["begin"]["k"], k=e["k"], ks=e["ks"], fc=e["fc"], npolled=len(evs),
+            # noisy modes: the value compared for each polled point is the GP estimate at that point
+            # (the mean of the last single-point prediction at u made between the evaluation and the comparison)
+            judged_on_gp = True
+            if st["begin"]["uhl"] > 0 and len(paired) == len(evs):
+                preds = st.get("predicts", [])
+                for (raw, p_), im in zip(evs, paired):
+                    cand = [q for q in preds if raw["seq"] < q["seq"] < im["seq"] and np.array_equal(q["u"], raw["u"])]
+                    try:
+                        fn = float(np.asarray(im["f_new"]).ravel()[0])
+                    except Exception:
+                        fn = None
+                    if not cand or fn is None or fn != cand[-1]["mu"]:
+                        judged_on_gp = False
+            ev("PollEnd", kb=st["begin"]["k"], k=e["k"], ks=e["ks"], fc=e["fc"], npolled=len(evs), ongp=bool(judged_on_gp),
                good=good, moved=moved, stalled=stalled, hasstall=stall_ev is not None,
                paired=len(paired) == len(evs), iter=e["iter"], incuid=uid_of(e["ubest"]),
-               incyR=RY(e["yval"]), bestuid=best_uid, bestyR=best_yR)
+               incyR=RY(e["yval"]), bestuid=best_uid, bestyR=best_yR,
+               ovf=int(e.get("mesh_overflows", 0)), ovfb=int(st["begin"].get("mesh_overflows", 0)))
         elif t == "HistWrite":
             it = e["iteration"]
             if e["site"] in ("reeval",):
@@ -517,6 +535,16 @@ def project(events, run_index=0):
         ev("FinalLog", **_final_guards(final, lb, ub, lbI, ubI, events, mode))
     ev("RunEnd")
     return out, info
+
+
+def _sf2(v):
+    """2*log2(search_factor) as an integer (factor steps are sqrt(2), 2, sqrt(1/2)); 9999 if not on that lattice"""
+    try:
+        t = 2.0 * math.log2(float(v))
+    except Exception:
+        return 9999
+    r = round(t)
+    return int(r) if abs(t - r) < 1e-6 else 9999
 
 
 def _i(v):
